@@ -8,6 +8,8 @@ import HealSparse.Model.PackedDispatch
 import HealSparse.Generated.OpsTable
 import HealSparse.Model.ApiRes
 import HealSparse.Model.Moc
+import HealSparse.Model.SubMap
+import HealSparse.Model.ApiFiles
 import HealSparse.Model.Text
 namespace HS
 
@@ -15,10 +17,37 @@ structure World where
   pool : List (String × MapObj) := []
   packed : PackedWorld := {}
   mocs : List (String × List Nat) := []
+  files : List (String × FileObj) := []
+  metas : List (String × List (String × String)) := []     -- user metadata per map name
 
-def World.get? (w : World) (n : String) : Option MapObj := (w.pool.find? (·.1 == n)).map (·.2)
+def World.raw? (w : World) (n : String) : Option MapObj := (w.pool.find? (·.1 == n)).map (·.2)
+
+/-- look a map up; a view is materialised from its parent's current storage -/
+def World.get? (w : World) (n : String) : Option MapObj :=
+  match w.raw? n with
+  | none => none
+  | some m =>
+    match m.view with
+    | none => some m
+    | some (pn, i) =>
+      match w.raw? pn with
+      | none => none
+      | some p =>
+        match materializeView p pn i m.sent m.cache with
+        | .ok v => some v
+        | .error _ => none
+
+/-- store a map; storing through a view name writes the field column back into the parent -/
 def World.put (w : World) (n : String) (m : MapObj) : World :=
-  { w with pool := (n, m) :: w.pool.filter (·.1 != n) }
+  match (w.raw? n).bind (·.view), m.view with
+  | some (pn, i), some _ =>
+    match w.raw? pn with
+    | some p =>
+      let p' := writeBackView p i m
+      { w with pool := (n, { m with st := ⟨#[], #[]⟩ }) :: (pn, p') ::
+          w.pool.filter (fun e => e.1 != n && e.1 != pn) }
+    | none => w
+  | _, _ => { w with pool := (n, { m with view := none }) :: w.pool.filter (·.1 != n) }
 
 def parseKind (a : Args) : Option Kind :=
   match a.getD "kind" "" with
@@ -133,7 +162,12 @@ def stepArgs (w : World) (op : String) (a : Args) : World × String :=
     | _, _ => (w, "bad-op:astype")
   | "pack" => withMap w a fun m =>
     match apiAsBitPacked m with
-    | .ok m' => (w.put (a.getD "r" "tmp") m', "ok")
+    | .ok m' =>
+      let r := a.getD "r" "tmp"
+      let cur := ((w.metas.find? (·.1 == a.pos.headD "")).map (·.2)).getD []
+      let w := w.put r m'
+      -- `metadata=self.metadata` (a packed source goes through copy(), which drops it)
+      ({ w with metas := (r, if m.kind == .packed then [] else cur) :: w.metas.filter (·.1 != r) }, "ok")
     | .error e => (w, errLine e)
   | "bop" => withMap w a fun m =>
     let n := a.pos.headD ""
@@ -246,6 +280,79 @@ def stepArgs (w : World) (op : String) (a : Args) : World × String :=
           | .error er => (w, errLine er))
        | .error er => (w, errLine er))
     | _, _ => (w, "bad-op:no-such-map")
+  | "single" => withMap w a fun m =>
+    match a.nat? "field", optVal a "sentinel" with
+    | some i, some sent =>
+      if a.flag "copy" then
+        (match apiGetSingleCopy m i sent with
+         | .ok r => (w.put (a.getD "r" "tmp") r, "ok")
+         | .error e => (w, errLine e))
+      else
+        (match singleSentinel m i sent with
+         | .ok (_, s) =>
+           let n := a.pos.headD ""
+           let r := a.getD "r" "tmp"
+           -- register the view descriptor (storage is always taken from the parent)
+           ({ w with pool := (r, { m with kind := .plain .bool, sent := s, st := ⟨#[], #[]⟩, cache := none,
+                                          view := some (n, i) }) :: w.pool.filter (·.1 != r) }, "ok")
+         | .error e => (w, errLine e))
+    | _, _ => (w, "bad-op:single")
+  | "scov" => withMap w a fun m =>
+    match a.nat? "k" with
+    | none => (w, "bad-op:k")
+    | some k =>
+      if k ≥ m.c.ncov then (w, errLine .index) else
+      (w.put (a.getD "r" "tmp") { m with st := singleCovpixMap m.c m.vc m.st k, cache := none }, "ok")
+  | "meta" => withMap w a fun _ =>
+    let n := a.pos.headD ""
+    let cur := ((w.metas.find? (·.1 == n)).map (·.2)).getD []
+    let k := a.getD "k" ""
+    ({ w with metas := (n, (k, a.getD "v" "") :: cur.filter (·.1 != k)) :: w.metas.filter (·.1 != n) }, "ok")
+  | "getmeta" => withMap w a fun _ =>
+    let n := a.pos.headD ""
+    let cur := ((w.metas.find? (·.1 == n)).map (·.2)).getD []
+    (w, ((cur.find? (·.1 == a.getD "k" "")).map (·.2)).getD "none")
+  | "write" => withMap w a fun m =>
+    let n := a.pos.headD ""
+    let cur := ((w.metas.find? (·.1 == n)).map (·.2)).getD []
+    let fo := apiWrite m cur
+    ({ w with files := (a.getD "f" "f", fo) :: w.files.filter (·.1 != a.getD "f" "f") }, "ok")
+  | "read" =>
+    match (w.files.find? (·.1 == a.getD "f" "f")).map (·.2) with
+    | none => (w, "bad-op:no-such-map")
+    | some fo =>
+      let px? : Option (Option (List Nat)) := match a.get? "pixels" with
+        | none => some none
+        | some t => (parseNats t).map some
+      match px? with
+      | none => (w, "bad-op:pixels")
+      | some px =>
+        match apiRead fo px with
+        | .ok m =>
+          let r := a.getD "r" "tmp"
+          let w := w.put r m
+          ({ w with metas := (r, fo.mdata) :: w.metas.filter (·.1 != r) }, "ok")
+        | .error e => (w, errLine e)
+  | "covread" =>
+    match (w.files.find? (·.1 == a.getD "f" "f")).map (·.2) with
+    | none => (w, "bad-op:no-such-map")
+    | some fo => (w, showBits (readCoverage (cfgOf fo.covord fo.spord) fo.file))
+  | "fitsraw" =>
+    -- COV / SPARSE extensions as astropy shows them (decoded by the harness): layout check
+    -- with the verified checker and literal comparison with the model's file
+    match (w.files.find? (·.1 == a.getD "f" "f")).map (·.2), parseInts (a.getD "cov" "_"),
+          parseVals (a.getD "sp" "_") with
+    | some fo, some cov, some sp =>
+      (match fileKind fo with
+       | none => (w, "bad-op:kind")
+       | some kind =>
+         let vc : VCfg Val := ⟨kind.blank fo.sentinel, kind.valid fo.sentinel⟩
+         let s : State Val := ⟨cov.toArray, sp.toArray⟩
+         let inv := invFailure (cfgOf fo.covord fo.spord) vc s
+         let same := decide (s.cov = fo.file.cov ∧ s.sp = fo.file.data)
+         (w, s!"inv={inv} same={if same then 1 else 0}"))
+    | none, _, _ => (w, "bad-op:no-such-map")
+    | _, _, _ => (w, "bad-op:fitsraw")
   | "vals" => withMap w a fun m => (w, showVals ((List.range m.npix).map m.abs))
   | "get" => withMap w a fun m =>
     let pix? : Option (List Nat) :=
